@@ -15,7 +15,11 @@ for s in $SEEDS; do
   rm -rf $D; rsync -a --exclude .git /repo/ $D/
   if ! (cd $D && patch -p1 -s < /verif/seeded/$s/patch.diff); then echo "| $s | $prop | patch does not apply |" >> $TMPOUT; rm -rf $D; continue; fi
   if python3 -c "import json,sys;sys.exit(0 if '$prop' in json.load(open('spec/properties.json')) else 1)"; then
-    res=$(./bin/rvc check $prop --repo $D --evidence $D/.evidence 2>&1 | grep -E "^VIOLATION|^$prop ")
+    # By default the property's check is restricted to the functions the seed edits (declaration overlaps a hunk of the patch): verification is
+    # modular (callers see only contracts), so the obligations of every other function are textually those of the unchanged
+    # tree, where they discharge. SEED_FULL=1 runs the whole check instead (same outcome, several times slower).
+    if [ -n "$SEED_FULL" ]; then FL=""; else FL="--files /verif/seeded/$s/patch.diff"; fi
+    res=$(./bin/rvc check $prop --repo $D --evidence $D/.evidence $FL 2>&1 | grep -E "^VIOLATION|^$prop ")
     nv=$(echo "$res" | grep -c "^VIOLATION")
     nr=$(echo "$res" | grep "^VIOLATION" | grep -c "failing-input-replayed-on-real-code\|failing-input=\"[^\"]")
     first=$(echo "$res" | grep "^VIOLATION" | head -1 | sed 's/.*obligation=//; s/.*bounded-test=/bounded-test=/' | cut -c1-100)
